@@ -638,7 +638,7 @@ Inductive fstep (b : bytes) (a : Update.archive) : Update.op -> bytes -> Prop :=
   | fs_fail o : (forall a', Update.step a o <> Ok a') -> fstep b a o b
   | fs_nop : fstep b a Update.ONop b
   | fs_create kd kt walk jobs new :
-      jobs_ok jobs new -> map abs new = map (Update.fresh kt) (filter (Update.wanted kd) walk) ->
+      jobs_ok jobs new -> carries_nodes kd kt walk new ->
       Update.step a (Update.OCreate kd kt walk) = Ok (map abs new) ->
       fstep b a (Update.OCreate kd kt walk) (write_archive (map build_job jobs))
   | fs_append kd kt walk jobs new b' nxt a' :
